@@ -524,8 +524,15 @@ class Sem:
         if op == "bin" and e.info in ("Eq", "Ne"):
             a = self.aval(e.args[0], env, depth + 1)
             b = self.aval(e.args[1], env, depth + 1)
-            if a and b and a[0] == b[0] == "enum" and not a[2] and not b[2]:
-                r = a[1] == b[1]
+            if a and b and a[0] == b[0] == "enum":
+                if a[1] != b[1]:
+                    r = False
+                elif not a[2] and not b[2]:
+                    r = True
+                elif len(a[2]) == len(b[2]) and all(x is not None and y is not None and x[0] == y[0] == "int" for x, y in zip(a[2], b[2])):
+                    r = all(x[1] == y[1] for x, y in zip(a[2], b[2]))   # e.g. paused == Some(true)
+                else:
+                    return None
                 return ("int", int(r if e.info == "Eq" else not r))
             if a and b and a[0] == b[0] == "int":
                 r = a[1] == b[1]
